@@ -4,6 +4,8 @@
    blank lines, every indentation and colon spacing, optional final newline. *)
 From V.model Require Import Base Deb822Lex Deb822Parse Grammar.
 From V.proofs Require Import GrammarLexP GrammarParseP GrammarAccP RejectP.
+From V.model Require XGrammar.
+From V.proofs Require ParseImageP.
 
 (* acceptance + exact content, for every well-formed document *)
 Theorem C03_accept : forall d : doc, wf_doc d = true ->
@@ -82,3 +84,27 @@ Example C03_ex_wf :
   wf_doc d = true /\ content d = [[([65], [98; 32; 10; 58; 99; 10; 100]); ([66; 45], [])];
                                    [([66; 45], []); ([67], [35; 10; 120])]]%N.
 Proof. vm_compute. split; reflexivity. Qed.
+
+(* Beyond the property's grammar: the strict reader is exactly the inverse of printing on the set
+   of ALL error-free layouts (XGrammar.xdoc: Grammar.doc plus every further choice the reader
+   tolerates — LF or CR line ends, blanks before the colon, comment or empty continuation lines,
+   values starting on a continuation line or absent).  Every such layout is accepted and read back
+   exactly; and every text the strict reader accepts is the rendering of one.  (cone C07,
+   proofs/ParseImageP.v; Grammar.wf_doc documents are among them: grammar_in_image.) *)
+Theorem C03_image_accept : forall d : XGrammar.xdoc, XGrammar.xwf_doc d = true ->
+  lex (XGrammar.xrender d) = Ok (XGrammar.xdoc_toks d) /\
+  from_str (XGrammar.xrender d) = Ok (XGrammar.xtree_of d) /\ text (XGrammar.xtree_of d) = XGrammar.xrender d /\
+  doc_items (XGrammar.xtree_of d) = XGrammar.xcontent d.
+Proof. exact ParseImageP.parse_image_accept. Qed.
+Check C03_image_accept : forall d : XGrammar.xdoc, XGrammar.xwf_doc d = true ->
+  lex (XGrammar.xrender d) = Ok (XGrammar.xdoc_toks d) /\
+  from_str (XGrammar.xrender d) = Ok (XGrammar.xtree_of d) /\ text (XGrammar.xtree_of d) = XGrammar.xrender d /\
+  doc_items (XGrammar.xtree_of d) = XGrammar.xcontent d.
+Print Assumptions C03_image_accept.
+
+Theorem C03_image_complete : forall (s : str) (t : tree), from_str s = Ok t ->
+  exists d, XGrammar.xwf_doc d = true /\ XGrammar.xrender d = s /\ XGrammar.xtree_of d = t.
+Proof. exact ParseImageP.parse_image_complete. Qed.
+Check C03_image_complete : forall (s : str) (t : tree), from_str s = Ok t ->
+  exists d, XGrammar.xwf_doc d = true /\ XGrammar.xrender d = s /\ XGrammar.xtree_of d = t.
+Print Assumptions C03_image_complete.
